@@ -3045,10 +3045,21 @@ func (c *compiler) emitCallee(callee compiledExpr) (calleeName unistring.String)
 }
 
 func (e *compiledCallExpr) emitGetter(putOnStack bool) {
+	var optChain, calleeChain *block
 	if e.isVariadic {
 		e.c.emit(startVariadic)
+		if e.c.block != nil && e.c.block.typ == blockOptChain {
+			// A short circuit of the enclosing optional chain inside the callee must not bypass endVariadic,
+			// otherwise the variadic marker is left on the stack. Collect such jumps separately.
+			optChain = e.c.block
+			e.c.startOptChain()
+			calleeChain = e.c.block
+		}
 	}
 	calleeName := e.c.emitCallee(e.callee)
+	if calleeChain != nil {
+		e.c.block = optChain
+	}
 
 	for _, expr := range e.args {
 		expr.emitGetter(true)
@@ -3100,6 +3111,23 @@ func (e *compiledCallExpr) emitGetter(putOnStack bool) {
 		} else {
 			e.c.emit(call(len(e.args)))
 		}
+	}
+	if calleeChain != nil && (len(calleeChain.breaks) > 0 || len(calleeChain.conts) > 0) {
+		// normal path skips over the short circuit landing pad
+		skip := len(e.c.p.code)
+		e.c.emit(nil)
+		lbl := len(e.c.p.code)
+		for _, item := range calleeChain.breaks {
+			e.c.p.code[item] = jopt(lbl - item)
+		}
+		for _, item := range calleeChain.conts {
+			e.c.p.code[item] = joptc(lbl - item)
+		}
+		// drop the marker, keep 'undefined' and continue to the end of the enclosing chain
+		e.c.emit(endVariadic)
+		optChain.breaks = append(optChain.breaks, len(e.c.p.code))
+		e.c.emit(nil)
+		e.c.p.code[skip] = jump(len(e.c.p.code) - skip)
 	}
 	if e.isVariadic {
 		e.c.emit(endVariadic)
